@@ -770,9 +770,28 @@ def r_direction(c):
             ch._parent = n
     ep = fd.args.args[1].arg
     P = f"{ep}.axis_permutation"
-    gens_of, env_of, typed = _perm_roles(fd, P)
+    # the permutation may be handed to a private helper that builds the index tuple:
+    # the helper is analysed with its parameter standing for the permutation
+    scopes = [(fd, P)]
+    for callee in m.private_callees(fd0):
+        for call in ast.walk(fd):
+            if isinstance(call, ast.Call) and (
+                    (isinstance(call.func, ast.Name) and call.func.id == callee.name)
+                    or (isinstance(call.func, ast.Attribute) and call.func.attr == callee.name)):
+                bind = m._bind_args(call, callee) or {}
+                for q, e in bind.items():
+                    if ast.unparse(e) == P:
+                        cf = m.expand_locals(m.inlined(callee), only="aliases")
+                        for n_ in ast.walk(cf):
+                            for ch in ast.iter_child_nodes(n_):
+                                ch._parent = n_
+                        scopes.append((cf, q))
     found = 0
-    for n in ast.walk(fd):
+    work = []
+    for fd_, p_ in scopes:
+        roles = _perm_roles(fd_, p_)
+        work += [(n, roles) for n in ast.walk(fd_)]
+    for n, (gens_of, env_of, typed) in work:
         # scatter: L[x] = ... Variable(f"_{y}") ...
         if isinstance(n, ast.Assign) and len(n.targets) == 1 \
                 and isinstance(n.targets[0], ast.Subscript):
